@@ -294,4 +294,43 @@ theorem initLoop_fb (c : PanelCfg) (ukids0 : Array Int) (hps : 1 ≤ c.panelSize
         · exact I.2 p hp
     · simp
 
+theorem initStep_state (c : PanelCfg) (ukids0 : Array Int) (a : InitAcc) (h : a.i < a.sh.state.size) :
+    (getN (initStep c ukids0 a).sh.state a.i = CANGO ∨ getN (initStep c ukids0 a).sh.state a.i = UNREADY)
+      ∧ ∀ k, k ≠ a.i → getN (initStep c ukids0 a).sh.state k = getN a.sh.state k := by
+  unfold initStep
+  simp only [getN]
+  refine ⟨?_, ?_⟩
+  · split <;> (try split) <;> simp [h]
+  · intro k hk
+    split <;> (try split) <;> simp [Array.getD_eq_getD_getElem?, Ne.symm hk]
+
+/-- **every leading column the loop creates is left in a legal, not yet taken state** (`BUSY < state ≤ UNREADY`, clause of `initOk`):
+CANGO for a relaxed supernode, UNREADY for a regular panel -/
+theorem initLoop_state (c : PanelCfg) (ukids0 : Array Int) (hps : 1 ≤ c.panelSize) :
+    ∀ fuel a, CurOk c.n a → a.sh.state.size = c.n + 1 →
+      (∀ p, p < a.i → getN (initLoop c ukids0 fuel a).sh.state p = getN a.sh.state p)
+      ∧ ∀ p ∈ cursors c ukids0 fuel a, BUSY < getN (initLoop c ukids0 fuel a).sh.state p
+          ∧ getN (initLoop c ukids0 fuel a).sh.state p ≤ UNREADY := by
+  intro fuel
+  induction fuel with
+  | zero => intro a _ _; simp [initLoop, cursors]
+  | succ f ih =>
+    intro a h hs
+    unfold initLoop cursors
+    split
+    · rename_i hi
+      have S := initStep_cursor c ukids0 a hps h hi
+      have Z := (initStep_sizes c ukids0 a).1
+      have ST := initStep_state c ukids0 a (by omega)
+      have I := ih (initStep c ukids0 a) S.2.2 (by omega)
+      refine ⟨?_, ?_⟩
+      · intro p hp
+        rw [I.1 p (by omega), ST.2 p (by omega)]
+      · intro p hp
+        rcases List.mem_cons.mp hp with hp | hp
+        · subst hp; rw [I.1 a.i S.1]
+          rcases ST.1 with e | e <;> rw [e] <;> decide
+        · exact I.2 p hp
+    · simp
+
 end Slu
